@@ -612,3 +612,42 @@ func upperClamp(v ssa.Value) (inner, limit ssa.Value, ok bool) {
 	}
 	return nil, nil, false
 }
+
+// handshakeCallsIn: the calls in fn that perform a TLS handshake and yield its error: (*tls.Conn).HandshakeContext
+// itself, or a helper of the package whose every return is the error of a HandshakeContext on its own parameter.
+func handshakeCallsIn(fn *ssa.Function) []ssa.CallInstruction {
+	var out []ssa.CallInstruction
+	for _, call := range core.Calls(fn) {
+		if strings.HasSuffix(core.CallName(call), "tls.Conn).HandshakeContext") {
+			out = append(out, call)
+			continue
+		}
+		h := core.StaticCallee(call)
+		if h == nil || h.Pkg != fn.Pkg || h.Blocks == nil || h.Signature.Results().Len() != 1 {
+			continue
+		}
+		var inner ssa.CallInstruction
+		for _, hc := range core.Calls(h) {
+			if strings.HasSuffix(core.CallName(hc), "tls.Conn).HandshakeContext") {
+				if _, isPar := core.Strip(hc.Common().Args[0]).(*ssa.Parameter); isPar {
+					inner = hc
+				}
+			}
+		}
+		if inner == nil {
+			continue
+		}
+		all := len(returnsOf(h)) > 0
+		for _, ret := range returnsOf(h) {
+			for _, o := range core.Origins(core.ReturnResults(ret)[0], core.OriginOpts{}) {
+				if o != inner.(ssa.Value) {
+					all = false
+				}
+			}
+		}
+		if all {
+			out = append(out, call)
+		}
+	}
+	return out
+}
